@@ -89,7 +89,11 @@ def namers():
             ["Bitwise", ["Struct", [["b0", ["BitsInteger", 3, False, False]], ["b1", ["BitsInteger", 5, False, False]]]]],
             ["Bitwise", ["Struct", [["b0", ["BitsInteger", 5, False, False]], ["b1", ["BitsInteger", 3, False, False]]]]],
             ["Array", 2, ["Struct", [["h0", BYTE]]]], ["RepeatUntil", ["objcmp", "==", 0], BYTE], ["PrefixedArray", BYTE, BYTE],
-            ["PascalString", BYTE, "utf8"], ["CString", "ascii"]]
+            ["PascalString", BYTE, "utf8"], ["CString", "ascii"],
+            # the same singleton / shape at byte level and inside a bit region of one schema
+            ["Array", 2, ["Flag"]], ["Bitwise", ["Struct", [["b0", ["Array", 3, ["Flag"]]], ["b1", ["BitsInteger", 5, False, False]]]]],
+            ["Array", 2, BYTE], ["Bitwise", ["Array", 8, ["BitsInteger", 1, False, False, "Bit"]]], ["Flag"], ["Padding", 1],
+            ["Bitwise", ["Struct", [["b0", ["Flag"]], [None, ["Padding", 7]]]]]]
 
 
 def greedy_leaves():
@@ -120,6 +124,13 @@ def shapes(tier):
         out.append(["Struct", [["f0", BYTE], ["f1", ["Array", ["this", "f0"], x]], ["f2", BYTE]]])
         out.append(["Struct", [["f0", ["Flag"]], ["f1", ["If", ["this", "f0"], x]], ["f2", BYTE]]])
         out.append(["Struct", [["f0", BYTE], ["f1", ["IfThenElse", ["this", "f0"], x, G.I(2, False, "b")]], ["f2", BYTE]]])
+    # conditions around conditions (each level must keep its own `if`), and a condition around a named field
+    for x in [BYTE, G.I(2, False, "l"), ["Struct", [["h0", BYTE]]]]:
+        out.append(["Struct", [["f0", ["Flag"]], ["f1", ["Flag"]], ["f2", ["If", ["this", "f0"], ["If", ["this", "f1"], x]]], ["f3", BYTE]]])
+        out.append(["Struct", [["f0", ["Flag"]], ["f1", ["Flag"]], ["f2", ["If", ["this", "f0"], ["IfThenElse", ["this", "f1"], x, BYTE]]], ["f3", BYTE]]])
+        out.append(["Struct", [["f0", ["Flag"]], ["f1", ["Flag"]], ["f2", ["IfThenElse", ["this", "f0"], ["If", ["this", "f1"], x], G.I(2, False, "b")]], ["f3", BYTE]]])
+        out.append(["Struct", [["f0", ["Flag"]], ["f2", ["If", ["this", "f0"], ["Renamed", x, "inner"]]], ["f3", BYTE]]])
+        out.append(["Struct", [["f0", BYTE], ["f1", ["Flag"]], ["f2", ["If", ["this", "f1"], ["Array", ["this", "f0"], x]]], ["f3", BYTE]]])
     out.append(["Struct", [["f0", BYTE], ["f1", ["Bytes", ["this", "f0"]]], ["f2", BYTE]]])
     out.append(["Struct", [["f0", BYTE], ["f1", ["FixedSized", ["this", "f0"], ["GreedyBytes"]]], ["f2", BYTE]]])
     out.append(["Struct", [["f0", BYTE], ["f1", ["PaddedString", ["this", "f0"], "ascii"]], ["f2", BYTE]]])
@@ -288,7 +299,9 @@ def scalar_equal(cv, kv):
     if isinstance(kv, K.EnumValue) and kv.label is not None:
         return False        # the schema names a member where construct returns a bare (unmapped) integer
     if isinstance(cv, bool):
-        return kv in (0, 1, True, False) and bool(kv) == cv
+        # Flag is exported as an integer byte (Kaitai has no byte-sized bool): compared by truth value, so a non-canonical
+        # flag byte such as 02 (reachable where a Pointer overlaps the field) counts as True on both sides
+        return isinstance(kv, int) and bool(kv) == cv
     if isinstance(cv, float):
         return isinstance(kv, float) and (cv == kv or (cv != cv and kv != kv))
     if cv is None:
